@@ -85,7 +85,8 @@ def build_ufo(spec, lib="defcon"):
 
 def build_designspace(ds, lib="defcon"):
     """ds spec: axes [{name, tag, min, default, max, map?}], sources [{ufo: ufo spec | index into
-    'ufos', location {axisname: v}, layerName?, name?}], rules, lib, instances, variableFonts.
+    'ufos', location {axisname: v}, layerName?, name?}], rules, lib, instances,
+    variableFonts [{name, axisSubsets [{name} (whole range) | {name, value} (user value)], lib?}].
     Returns (DesignSpaceDocument with source.font set, list of distinct font objects)."""
     from fontTools.designspaceLib import (
         AxisDescriptor, DesignSpaceDocument, InstanceDescriptor, RuleDescriptor,
@@ -127,6 +128,20 @@ def build_designspace(ds, lib="defcon"):
         idesc.styleName = inst.get("styleName", "S")
         idesc.name = inst.get("name")
         doc.addInstance(idesc)
+    for vf_ in ds.get("variableFonts") or []:
+        from fontTools.designspaceLib import (
+            RangeAxisSubsetDescriptor, ValueAxisSubsetDescriptor, VariableFontDescriptor,
+        )
+        subsets = []
+        for sub in vf_["axisSubsets"]:
+            if "value" in sub:
+                subsets.append(ValueAxisSubsetDescriptor(name=sub["name"], userValue=sub["value"]))
+            else:
+                subsets.append(RangeAxisSubsetDescriptor(name=sub["name"]))
+        vd = VariableFontDescriptor(name=vf_["name"], axisSubsets=subsets)
+        for k, v in (vf_.get("lib") or {}).items():
+            vd.lib[k] = copy.deepcopy(v)
+        doc.addVariableFont(vd)
     for k, v in (ds.get("lib") or {}).items():
         doc.lib[k] = copy.deepcopy(v)
     return doc, fonts
